@@ -196,10 +196,19 @@ func seq(c *kit.Ctx, id string) {
 			ncopy++
 			var d0, dc mon.Digest
 			var cp *state.StateDB
+			// half of the copies are not looked at before the original moves on (a pending-state copy or
+			// a look-back copy is typically read later): the copy must then still show the content of
+			// the original at copy time
+			unread := r.Intn(2) == 0
 			p := kit.Guard(func() {
 				d0 = mon.Live(w.St, w.U, opts)
 				cp = w.St.Copy()
-				dc = mon.Live(cp, w.U, opts)
+				if unread {
+					dc = d0
+					c.Count("copies_first_read_after_the_original_moved", 1)
+				} else {
+					dc = mon.Live(cp, w.U, opts)
+				}
 			})
 			c.Evals(1)
 			if p != nil {
@@ -238,7 +247,9 @@ func seq(c *kit.Ctx, id string) {
 				bad = true
 				break
 			}
-			if diff := mon.Diff(dc, dc2); len(diff) > 0 {
+			if diff := mon.Diff(dc, dc2); unread && len(diff) == 1 && strings.HasPrefix(diff[0], "stakingrecords-iter:") && strings.Count(dc2["stakingrecords-iter"], ";") < strings.Count(dc["stakingrecords-iter"]+";", ";") {
+				c.Violation("copy-foreach-staking-record-skips", "ForEachStakingRecord on a Copy enumerates fewer records than on the original although GetStakingRecord finds them all: "+diff[0], w.TailOps(30))
+			} else if len(diff) > 0 {
 				c.Violation("copy-not-independent", fmt.Sprintf("mutating the original changed the copy: %s", strings.Join(first(diff, 5), " || ")), map[string]interface{}{"ops_on_original": w.Ops[mark:], "diff": first(diff, 20)})
 				bad = true
 				break
